@@ -2,6 +2,7 @@ package checks
 
 import (
 	"fmt"
+	"regexp"
 	"strings"
 
 	"github.com/antonmedv/expr/ast"
@@ -200,7 +201,7 @@ func (g *c11Gen) gen(d int) *term.Term {
 		case 1:
 			return term.Float([]float64{0.5, 1.5, 2.25, 10.0}[r.Intn(4)])
 		case 2:
-			return term.Str(r.Pick([]string{"", "a", "^a.*", "x y", "世"}))
+			return term.Str(r.Pick([]string{"", "a", "^a.*", "x y", "世", "(", ")", ".", "#", "?", ":", ",", "[", "]", "{", "}", "?.", "..", "not", "in", "+"}))
 		case 3:
 			return term.Bool(r.Bool())
 		case 4:
@@ -216,7 +217,14 @@ func (g *c11Gen) gen(d int) *term.Term {
 	}
 	switch r.Intn(16) {
 	case 0, 1, 2, 3:
-		return raw(term.KBinary, term.BinOps[r.Intn(len(term.BinOps))], g.gen(d-1), g.gen(d-1))
+		b := raw(term.KBinary, term.BinOps[r.Intn(len(term.BinOps))], g.gen(d-1), g.gen(d-1))
+		if b.Op == "matches" && b.Sub[1].K == term.KStr {
+			// a literal pattern is compiled by the parser: keep it valid
+			if _, err := regexp.Compile(b.Sub[1].Str); err != nil {
+				b.Sub[1] = term.Str("^a.*")
+			}
+		}
+		return b
 	case 4, 5:
 		return raw(term.KUnary, r.Pick(c11Unary), g.gen(d-1))
 	case 6:
@@ -294,11 +302,12 @@ func (g *c11Gen) gen(d int) *term.Term {
 func normalizeForDump(t *term.Term) {}
 
 var c11Alphabet = []ref.PTok{
-	{Kind: "ident", Text: "a"}, {Kind: "ident", Text: "b"}, {Kind: "number", Text: "1"}, {Kind: "string", Text: `"s"`, Val: "s"}, {Kind: "ident", Text: "true"}, {Kind: "ident", Text: "nil"},
+	{Kind: "ident", Text: "a"}, {Kind: "ident", Text: "b"}, {Kind: "number", Text: "1"}, {Kind: "string", Text: `")"`, Val: ")"}, {Kind: "ident", Text: "true"}, {Kind: "ident", Text: "nil"},
 	{Kind: "op", Text: "+"}, {Kind: "op", Text: "-"}, {Kind: "op", Text: "*"}, {Kind: "op", Text: "**"}, {Kind: "op", Text: "=="}, {Kind: "op", Text: "<"}, {Kind: "op", Text: "and"}, {Kind: "op", Text: "or"},
 	{Kind: "op", Text: "not"}, {Kind: "op", Text: "!"}, {Kind: "op", Text: "in"}, {Kind: "op", Text: ".."}, {Kind: "op", Text: "?"}, {Kind: "op", Text: ":"},
 	{Kind: "bracket", Text: "("}, {Kind: "bracket", Text: ")"}, {Kind: "bracket", Text: "["}, {Kind: "bracket", Text: "]"}, {Kind: "op", Text: "."}, {Kind: "op", Text: "?."}, {Kind: "op", Text: ","},
 	{Kind: "bracket", Text: "{"}, {Kind: "bracket", Text: "}"}, {Kind: "op", Text: "#"}, {Kind: "ident", Text: "len"}, {Kind: "ident", Text: "map"}, {Kind: "op", Text: "matches"}, {Kind: "op", Text: "%"},
+	{Kind: "string", Text: `"s"`, Val: "s"}, {Kind: "string", Text: `"("`, Val: "("}, {Kind: "string", Text: `"."`, Val: "."}, {Kind: "string", Text: `"#"`, Val: "#"}, {Kind: "string", Text: `"?"`, Val: "?"}, {Kind: "string", Text: `":"`, Val: ":"}, {Kind: "string", Text: `","`, Val: ","}, {Kind: "string", Text: `"["`, Val: "["}, {Kind: "string", Text: `"?."`, Val: "?."},
 }
 
 // the first 28 tokens form the exhaustive alphabet
